@@ -8,6 +8,8 @@ from .. import scen
 def run(ctx):
     runs = scen.general_runs(ctx, 70 if ctx.quick else 1500, batches=True)
     runs += scen.benchmark_runs(ctx, quick=ctx.quick)
+    if not ctx.quick:
+        runs += scen.long_runs(ctx)
     failures, stats = validate_runs(ctx, runs)
     report_failures(ctx, "C02", failures)
     mc = scen.agp_design_mc(ctx, "C02")
